@@ -28,7 +28,6 @@ import (
 // are not request handlers
 var skipAPI = map[string]string{
 	"Start": "opens the gRPC listener", "Stop": "stops the gRPC server", "RunGateway": "opens the HTTP gateway",
-	"GetClientStatus":    "reads the p2p SyncManager/Switch (nil in the simulated node)",
 }
 
 type apiMethod struct {
@@ -220,6 +219,9 @@ func genCase(wd *World, p *pools, ms []apiMethod, r *rng.R) gcase {
 	pGood := []int{95, 85, 70, 40}[r.Intn(4)]
 	if r.Chance(22) {
 		return genWM(wd, p, r, pGood)
+	}
+	if r.Chance(40) {
+		return genStructured(wd, p, ms, r)
 	}
 	m := ms[r.Intn(len(ms))]
 	if m.req == reflect.TypeOf(empty.Empty{}) {
